@@ -14,9 +14,10 @@ RICH = """options {
 
 MetaData Common {
     u32 Qty `quantity`,
-    char[4] Code `code`,
-    string Text `text`,
     Qty Amount `alias of Qty`,
+    char[4] Code `code`,
+    Code Venue `alias of Code`,
+    string Text `text`,
 }
 
 root packet Root {
@@ -38,6 +39,8 @@ root packet Root {
     match MsgType as Body {
         1 : Logon,
         [2, 3] : Logout,
+        [10, 11, 12, 13, 14, 15, 16] : Logon,
+        [20, 21, 22, 23, 24, 25, 26, 27, 28, 29] : Logout,
         4 : Empty
     },
     @calculatedFrom("VSUM32") u32 Check,
@@ -77,6 +80,28 @@ packet B { repeat Inner { u8 p, }, f32 y, }
 
 MINIMAL = "packet P {\n}\n"
 
-DOCS = {"rich": RICH, "second": SECOND, "minimal": MINIMAL}
+# characters that are special to printf-style formatting, templates, shells, HTML and escapes, placed
+# where the grammar admits free text: comments, documentation strings, string option values
+SPECIAL = """// 100% of %d %s %v %!x {{.Name}} ${HOME} <b>&amp;</b> \\n \\t "quoted" 'single' \u00e9 \xe9 é €
+options {
+    JavaPackage = "com.x.y";
+    GoPackage = "msg";
+    GoModule = "example.com/msg%20x";
+}
+root packet Special {
+    u8 Kind `100% sure: %d items, {{braces}}, <tag> & "quotes"`, // trailing 50%s
+    // own line %v %% %
+    string Note `tab\there \\ backslash`,
+    match Kind as Body {
+        // before pair %d
+        1 : One,
+    },
+}
+packet One {
+    u16 v `é€ unicode`,
+}
+"""
+
+DOCS = {"rich": RICH, "second": SECOND, "minimal": MINIMAL, "special": SPECIAL}
 
 # compile-able? (rich uses @tag and MetaData refs; all three are accepted by the compiler)
